@@ -453,6 +453,18 @@ theorem parseEntries_panic (gm : List (Nat × List Nat)) : ∀ (fuel want : Nat)
         · cases h
         · rename_i p hp; injection h with h; subst h; exact entryField_panic _ _ _ _ _ _ hp
 
+theorem parseDb_panic (ng ne : Nat) (payload : Bytes) (s : String) (h : parseDb ng ne payload = .panic s) : False := by
+  unfold parseDb at h
+  rcases bind_panic _ _ s h with h1 | ⟨⟨gs, rest⟩, _, h⟩
+  · exact parseGroups_panic _ _ _ _ _ h1
+  try simp only at h
+  split at h
+  · cases h
+  · rcases bind_panic _ _ s h with h1 | ⟨⟨es, r2⟩, _, h⟩
+    · exact parseEntries_panic _ _ _ _ _ _ h1
+    try simp only at h
+    split at h <;> cases h
+
 /-- **C06_kdb_total**: the KDB reader never panics, whatever the file, the key elements and the primitives -/
 theorem C06_kdb_total (P : Prims) (data : Bytes) (comp : Option (Option Bytes)) (s : String) :
     parseKdb P data comp ≠ .panic s := by
@@ -479,15 +491,9 @@ theorem C06_kdb_total (P : Prims) (data : Bytes) (comp : Option (Option Bytes)) 
           · try simp only [] at h
             split at h
             · cases h
-            · rcases bind_panic _ _ s h with h1 | ⟨⟨gs, rest⟩, _, h⟩
-              · exact parseGroups_panic _ _ _ _ _ h1
-              try simp only at h
-              split at h
+            · rcases bind_panic _ _ s h with h1 | ⟨root, _, h⟩
+              · exact parseDb_panic _ _ _ _ h1
               · cases h
-              · rcases bind_panic _ _ s h with h1 | ⟨⟨es, r2⟩, _, h⟩
-                · exact parseEntries_panic _ _ _ _ _ _ h1
-                try simp only at h
-                split at h <;> cases h
 
 /-- **C06_timestamp_total**: `parse_xml_timestamp` never panics (short or over-range base64 values are errors) -/
 theorem C06_timestamp_total (t : String) (s : String) : Kp.Codec.parseTimestamp t ≠ .panic s := by
